@@ -1496,6 +1496,7 @@ class Stream(AbstractStream):
             else:
                 self._imol.mix_from([streams[0]._imol])
         else:
+            if energy_balance: H = sum([i.H for i in streams], Q)
             self.P = P = min([i.P for i in streams])
             if conserve_phases:
                 phases = self.phase + ''.join([i.phase for i in others])
@@ -1503,7 +1504,6 @@ class Stream(AbstractStream):
             if vle:
                 self._imol.mix_from([i._imol for i in streams])
                 if energy_balance: 
-                    H = sum([i.H for i in streams], Q)
                     self.vle(H=H, P=P)
                 else:
                     self.vle(T=self.T, P=P)
@@ -1511,7 +1511,6 @@ class Stream(AbstractStream):
             else:
                 if energy_balance: 
                     self._imol.mix_from([i._imol for i in streams])
-                    H = sum([i.H for i in streams], Q)
                     if conserve_phases: 
                         self.H = H
                     else:
